@@ -33,6 +33,172 @@ def _strip_doc(f: ast.FunctionDef) -> list[ast.stmt]:
     return body
 
 
+# ------------------------------------------------------------------------------------------------ small bodies as sets of paths
+class _Path:
+    """One execution path of a small method body: the branch conditions taken (normalised atom, polarity), the calls made
+    for their effect in order (texts; `$k` stands for the value of the k-th one), and how it ends."""
+    def __init__(self) -> None:
+        self.conds: list[tuple[str, bool]] = []
+        self.effects: list[str] = []
+        self.env: dict[str, str] = {}
+        self.end: tuple[str, str] | None = None        # ('return', text) / ('raise', exception class) / None = falls off the end
+
+    def copy(self) -> '_Path':
+        q = _Path()
+        q.conds, q.effects, q.env, q.end = list(self.conds), list(self.effects), dict(self.env), self.end
+        return q
+
+
+def _atom(test: ast.expr, txt) -> tuple[str, bool]:
+    """Normalised condition: (atom, polarity). `not X`; emptiness tests `X`, `len(X)`, `len(X) > 0`, `len(X) != 0`, `len(X) >= 1`,
+    `X != []` / `len(X) == 0`, `X == []`; `X is None` / `X is not None`; `k in D` / `k not in D`."""
+    if isinstance(test, ast.UnaryOp) and isinstance(test.op, ast.Not):
+        a, pol = _atom(test.operand, txt)
+        return a, not pol
+    if isinstance(test, ast.Compare) and len(test.ops) == 1:
+        op, l, r = test.ops[0], test.left, test.comparators[0]
+        is_len = isinstance(l, ast.Call) and isinstance(l.func, ast.Name) and l.func.id == 'len' and len(l.args) == 1 and not l.keywords
+        rv = r.value if isinstance(r, ast.Constant) else None
+        if is_len and type(rv) is int:
+            x = 'truthy:' + txt(l.args[0])
+            if (isinstance(op, (ast.Gt, ast.NotEq)) and rv == 0) or (isinstance(op, ast.GtE) and rv == 1):
+                return x, True
+            if (isinstance(op, ast.Eq) and rv == 0) or (isinstance(op, ast.Lt) and rv == 1) or (isinstance(op, ast.LtE) and rv == 0):
+                return x, False
+        if isinstance(r, (ast.List, ast.Tuple)) and not r.elts and isinstance(op, (ast.Eq, ast.NotEq)):
+            return 'truthy:' + txt(l), isinstance(op, ast.NotEq)
+        if isinstance(r, ast.Constant) and r.value is None and isinstance(op, (ast.Is, ast.IsNot, ast.Eq, ast.NotEq)):
+            return 'none:' + txt(l), isinstance(op, (ast.Is, ast.Eq))
+        if isinstance(op, (ast.In, ast.NotIn)):
+            return f'in:{txt(l)}:{txt(r)}', isinstance(op, ast.In)
+    if isinstance(test, ast.Call) and isinstance(test.func, ast.Name) and test.func.id == 'len' and len(test.args) == 1:
+        return 'truthy:' + txt(test.args[0]), True
+    if isinstance(test, ast.Call) and isinstance(test.func, ast.Name) and test.func.id == 'bool' and len(test.args) == 1:
+        return _atom(test.args[0], txt)
+    return 'truthy:' + txt(test), True
+
+
+class _Names(ast.NodeTransformer):
+    def __init__(self, env: dict[str, str]) -> None:
+        self.env = env
+
+    def visit_Name(self, n: ast.Name) -> ast.AST:
+        if isinstance(n.ctx, ast.Load) and n.id in self.env:
+            return ast.parse(self.env[n.id].replace('$', '__v'), mode='eval').body
+        return n
+
+
+def _paths(stmts: list[ast.stmt], what: str, limit: int = 64, pure_calls: bool = False) -> list[_Path]:
+    """All paths through a loop-free body of assignments to locals, expression statements (calls), if/elif/else, return, raise,
+    and `try: v = D[k]` / `except KeyError: ...` (read as `if k in D: v = D[k]` / `else: ...` - the lookup is the only thing
+    that can raise KeyError there).  Locals are inlined; a local bound to a call stands for that call's value (`$k`).
+    With `pure_calls` the calls on right-hand sides are values without effect (string formatting) and are inlined as text.
+    A pair `($k[0], $k[1])` rebuilt from an unpacked 2-tuple is `$k`.  Contradictory paths are dropped.  Anything else: TranslateError."""
+    import copy as _copy
+    import re as _re
+
+    def txt(path: _Path, node: ast.expr) -> str:
+        s = ast.unparse(_Names(path.env).visit(_copy.deepcopy(node))).replace('__v', '$')
+        return _re.sub(r'\((\$\d+)\[0\], \1\[1\]\)', r'\1', s)
+
+    def has_call(node: ast.expr) -> bool:
+        return not pure_calls and any(isinstance(x, ast.Call) and not (isinstance(x.func, ast.Name) and x.func.id in ('len', 'isinstance', 'bool', 'repr', 'str'))
+                   for x in ast.walk(node))
+
+    def run(stmts: list[ast.stmt], live: list[_Path]) -> list[_Path]:
+        for st in stmts:
+            going = [q for q in live if q.end is None]
+            done = [q for q in live if q.end is not None]
+            if not going:
+                return live
+            nxt: list[_Path] = []
+            if isinstance(st, (ast.Assign, ast.AnnAssign)) and (isinstance(st, ast.AnnAssign) or len(st.targets) == 1) and st.value is not None:
+                tg = st.target if isinstance(st, ast.AnnAssign) else st.targets[0]
+                for q in going:
+                    v = txt(q, st.value)
+                    if has_call(st.value):
+                        q.effects.append(v)
+                        v = f'${len(q.effects) - 1}'
+                    if isinstance(tg, ast.Name):
+                        q.env[tg.id] = v
+                    elif isinstance(tg, ast.Tuple) and all(isinstance(e, ast.Name) for e in tg.elts) and v.startswith('$'):
+                        for i, e in enumerate(tg.elts):
+                            q.env[e.id] = f'{v}[{i}]'
+                    else:
+                        raise TranslateError(f'tokenizer.py:{st.lineno}: {what}: assignment target `{ast.unparse(tg)}` not modelled')
+                    nxt.append(q)
+            elif isinstance(st, ast.Expr) and isinstance(st.value, ast.Call) and isinstance(st.value.func, ast.Attribute) \
+                    and st.value.func.attr == 'append' and isinstance(st.value.func.value, ast.Name) and len(st.value.args) == 1 \
+                    and all(st.value.func.value.id in q.env and q.env[st.value.func.value.id].startswith('[') for q in going):
+                # a local list built piece by piece: `parts = [a]; parts.append(b)` is `parts = [a, b]`
+                for q in going:
+                    cur = ast.parse(q.env[st.value.func.value.id].replace('$', '__v'), mode='eval').body
+                    if not isinstance(cur, ast.List):
+                        raise TranslateError(f'tokenizer.py:{st.lineno}: {what}: append to a local that is not a list literal')
+                    cur.elts.append(ast.parse(txt(q, st.value.args[0]).replace('$', '__v'), mode='eval').body)
+                    q.env[st.value.func.value.id] = ast.unparse(cur).replace('__v', '$')
+                    nxt.append(q)
+            elif isinstance(st, ast.Expr) and isinstance(st.value, ast.Call):
+                for q in going:
+                    q.effects.append(txt(q, st.value))
+                    nxt.append(q)
+            elif isinstance(st, ast.Expr) and isinstance(st.value, ast.Constant):
+                nxt = going
+            elif isinstance(st, ast.Pass):
+                nxt = going
+            elif isinstance(st, ast.Return):
+                for q in going:
+                    r = txt(q, st.value) if st.value is not None else 'None'
+                    if st.value is not None and has_call(st.value):
+                        pass                      # the returned call is the path's last action
+                    elif r == f'${len(q.effects) - 1}' and f'${len(q.effects) - 1}' not in ' '.join(q.effects):
+                        r = q.effects.pop()       # `x = f(); return x` is `return f()`
+                    q.end = ('return', r)
+                    nxt.append(q)
+            elif isinstance(st, ast.Raise) and st.exc is not None:
+                for q in going:
+                    exc = st.exc.func if isinstance(st.exc, ast.Call) else st.exc
+                    q.end = ('raise', ast.unparse(exc))
+                    nxt.append(q)
+            elif isinstance(st, ast.If) and isinstance(st.test, ast.BoolOp):
+                # `if A and B: X else: Y` = `if A: (if B: X else: Y) else: Y`;  `if A or B: X else: Y` = `if A: X else: (if B: X else: Y)`
+                first, rest = st.test.values[0], st.test.values[1:]
+                rest_t = rest[0] if len(rest) == 1 else ast.BoolOp(op=st.test.op, values=rest)
+                inner = ast.copy_location(ast.If(test=rest_t, body=st.body, orelse=st.orelse), st)
+                outer = ast.If(test=first, body=[inner], orelse=st.orelse) if isinstance(st.test.op, ast.And) else ast.If(test=first, body=st.body, orelse=[inner])
+                nxt = run([ast.copy_location(outer, st)], going)
+            elif isinstance(st, ast.If):
+                for q in going:
+                    a, pol = _atom(st.test, lambda n, q=q: txt(q, n))
+                    for branch, bp in ((st.body, pol), (st.orelse, not pol)):
+                        if (a, not bp) in q.conds:
+                            continue              # contradicts an earlier test on this path
+                        q2 = q.copy()
+                        if (a, bp) not in q2.conds:
+                            q2.conds.append((a, bp))
+                        nxt += run(branch, [q2])
+            elif isinstance(st, ast.Try) and len(st.body) == 1 and isinstance(st.body[0], ast.Assign) and not st.orelse and not st.finalbody \
+                    and len(st.handlers) == 1 and st.handlers[0].type is not None and ast.unparse(st.handlers[0].type) == 'KeyError' \
+                    and st.handlers[0].name is None and isinstance(st.body[0].value, ast.Subscript) and isinstance(st.body[0].value.value, ast.Name):
+                sub = st.body[0].value
+                test = ast.Compare(left=sub.slice, ops=[ast.In()], comparators=[sub.value])
+                nxt = run([ast.copy_location(ast.If(test=test, body=st.body, orelse=st.handlers[0].body), st)], going)
+            else:
+                raise TranslateError(f'tokenizer.py:{st.lineno}: {what}: statement `{ast.unparse(st).splitlines()[0]}` not modelled')
+            live = done + nxt
+            if len(live) > limit:
+                raise TranslateError(f'{what}: too many paths')
+        return live
+    return run(stmts, [_Path()])
+
+
+def _end_of_add_txt(call: str, what: str) -> tuple[bool, str]:
+    """`self._pushback.append(X)` -> (True, X); `self._pushback.insert(0, X)` -> (False, X); also `+= [X]` is not accepted."""
+    node = ast.parse(call.replace('$', '__v'), mode='eval').body
+    last, arg = _end_of_add(node, what)
+    return last, ast.unparse(arg).replace('__v', '$')
+
+
 def _end_of_add(call: ast.expr, what: str) -> tuple[bool, ast.expr]:
     """`self._pushback.append(X)` -> (True, X); `self._pushback.insert(0, X)` -> (False, X)."""
     if isinstance(call, ast.Call) and isinstance(call.func, ast.Attribute) and ast.unparse(call.func.value) == 'self._pushback' and not call.keywords:
@@ -64,12 +230,14 @@ def translate() -> tuple[str, dict]:
     f = funcs.get('__call__')
     if f is None:
         raise TranslateError('BaseTokenizer.__call__ not found')
-    b = _strip_doc(f)
-    if not (len(b) == 2 and isinstance(b[0], ast.If) and ast.unparse(b[0].test) == 'self._pushback' and not b[0].orelse
-            and len(b[0].body) == 1 and isinstance(b[0].body[0], ast.Return) and isinstance(b[1], ast.Return)
-            and b[1].value is not None and ast.unparse(b[1].value) == 'self._get_token()'):
-        raise TranslateError('BaseTokenizer.__call__: unrecognised body')
-    pop = b[0].body[0].value
+    ps = _paths(_strip_doc(f), 'BaseTokenizer.__call__')
+    have = [q for q in ps if ('truthy:self._pushback', True) in q.conds]
+    empty = [q for q in ps if ('truthy:self._pushback', False) in q.conds]
+    if len(ps) != 2 or len(have) != 1 or len(empty) != 1 or any(len(q.conds) != 1 or q.effects or q.end is None or q.end[0] != 'return' for q in ps) \
+            or empty[0].end[1] != 'self._get_token()':
+        raise TranslateError('BaseTokenizer.__call__: not "a pushed-back token if there is one, else self._get_token()": paths '
+                             + '; '.join(f'{q.conds} {q.effects} {q.end}' for q in ps))
+    pop = ast.parse(have[0].end[1], mode='eval').body
     if not (isinstance(pop, ast.Call) and ast.unparse(pop.func) == 'self._pushback.pop' and not pop.keywords and len(pop.args) <= 1):
         raise TranslateError(f'BaseTokenizer.__call__: unrecognised pop `{ast.unparse(pop) if pop else None}`')
     if not pop.args:
@@ -85,40 +253,48 @@ def translate() -> tuple[str, dict]:
     f = funcs.get('peek')
     if f is None:
         raise TranslateError('BaseTokenizer.peek not found')
-    b = _strip_doc(f)
-    if not (len(b) == 3 and isinstance(b[0], ast.Assign) and len(b[0].targets) == 1 and isinstance(b[0].targets[0], ast.Name)
-            and ast.unparse(b[0].value) == 'self()' and isinstance(b[1], ast.Expr) and isinstance(b[2], ast.Return)
-            and b[2].value is not None and ast.unparse(b[2].value) == b[0].targets[0].id):
-        raise TranslateError('BaseTokenizer.peek: unrecognised body')
-    peek_last, arg = _end_of_add(b[1].value, 'peek')
-    if ast.unparse(arg) != b[0].targets[0].id:
+    ps = _paths(_strip_doc(f), 'BaseTokenizer.peek')
+    if len(ps) != 1 or ps[0].conds or len(ps[0].effects) != 2 or ps[0].effects[0] != 'self()' or ps[0].end != ('return', '$0'):
+        raise TranslateError('BaseTokenizer.peek: not "read a token with self(), put it back, return it": paths '
+                             + '; '.join(f'{q.conds} {q.effects} {q.end}' for q in ps))
+    peek_last, arg = _end_of_add_txt(ps[0].effects[1], 'peek')
+    if arg != '$0':
         raise TranslateError('BaseTokenizer.peek: pushes back something other than the token it read')
 
     # ---- push_back
     f = funcs.get('push_back')
     if f is None:
         raise TranslateError('BaseTokenizer.push_back not found')
-    b = _strip_doc(f)
     argn = [a.arg for a in f.args.args]
     if len(argn) != 3:
         raise TranslateError('BaseTokenizer.push_back: unrecognised signature')
     _self, tk, val = argn
-    if not b or not isinstance(b[-1], ast.Expr):
-        raise TranslateError('BaseTokenizer.push_back: unrecognised body')
-    push_last, arg = _end_of_add(b[-1].value, 'push_back')
-    if ast.unparse(arg) != f'({tk}, {val})':
-        raise TranslateError(f'BaseTokenizer.push_back: pushes `{ast.unparse(arg)}`')
-    tries = [s for s in b[:-1] if isinstance(s, ast.Try)]
-    want_try = (f'try:\n    {val} = _OPERATOR_VALS[{tk}]\nexcept KeyError:\n    if {val} is None:\n'
-                f"        raise ValueError(f'Value required for {{{tk}.name!r}}!') from None")
-    if len(tries) != 1 or ast.dump(ast.parse(ast.unparse(tries[0]))) != ast.dump(ast.parse(want_try)):
-        raise TranslateError('BaseTokenizer.push_back: value normalisation is not the recognised `_OPERATOR_VALS[tok]` / ValueError form')
-    for s in b[:-1]:
-        if isinstance(s, ast.Try):
-            continue
-        if isinstance(s, ast.If) and ast.unparse(s.test) == f'not isinstance({tk}, Token)' and len(s.body) == 1 and isinstance(s.body[0], ast.Raise):
-            continue
-        raise TranslateError(f'tokenizer.py:{s.lineno}: BaseTokenizer.push_back: unrecognised statement')
+    ps = _paths(_strip_doc(f), 'BaseTokenizer.push_back')
+    # a guard that rejects non-Token arguments by raising is outside the model (the model only pushes tokens)
+    ps = [q for q in ps if not ((f'truthy:isinstance({tk}, Token)', False) in q.conds and q.end is not None and q.end[0] == 'raise')]
+    for q in ps:
+        q.conds = [c for c in q.conds if c != (f'truthy:isinstance({tk}, Token)', True)]
+    known, other = (f'in:{tk}:_OPERATOR_VALS', True), (f'in:{tk}:_OPERATOR_VALS', False)
+    p_op = [q for q in ps if q.conds == [known]]
+    p_none = [q for q in ps if sorted(q.conds) == sorted([other, (f'none:{val}', True)])]
+    p_val = [q for q in ps if sorted(q.conds) == sorted([other, (f'none:{val}', False)])]
+    desc = '; '.join(f'{q.conds} {q.effects} {q.end}' for q in ps)
+    if len(ps) != 3 or len(p_op) != 1 or len(p_none) != 1 or len(p_val) != 1:
+        raise TranslateError('BaseTokenizer.push_back: value normalisation is not "the _OPERATOR_VALS entry if the token has one, else the value '
+                             'given, which must not be None": paths ' + desc)
+    if p_none[0].end != ('raise', 'ValueError') or p_none[0].effects:
+        raise TranslateError('BaseTokenizer.push_back: a value token without a value must raise ValueError and push nothing: ' + desc)
+    ends = []
+    for q, want in ((p_op[0], f'({tk}, _OPERATOR_VALS[{tk}])'), (p_val[0], f'({tk}, {val})')):
+        if len(q.effects) != 1 or q.end not in (None, ('return', 'None')):
+            raise TranslateError('BaseTokenizer.push_back: each accepting path must do exactly one push-back update: ' + desc)
+        last, arg = _end_of_add_txt(q.effects[0], 'push_back')
+        if arg != want:
+            raise TranslateError(f'BaseTokenizer.push_back: pushes `{arg}`, expected `{want}`')
+        ends.append(last)
+    if ends[0] != ends[1]:
+        raise TranslateError('BaseTokenizer.push_back: operator tokens and value tokens are pushed at different ends')
+    push_last = ends[0]
 
     # ---- _OPERATOR_VALS
     ov = None
@@ -140,7 +316,7 @@ def translate() -> tuple[str, dict]:
     explicit: list[int] = []
     fallthrough = False
     for n in ast.walk(f):
-        if isinstance(n, ast.Compare) and len(n.ops) == 1 and isinstance(n.ops[0], ast.Is) and ast.unparse(n.left) == 'message':
+        if isinstance(n, ast.Compare) and len(n.ops) == 1 and isinstance(n.ops[0], (ast.Is, ast.Eq)) and ast.unparse(n.left) == 'message':
             explicit.append(tokval(n.comparators[0], 'error()'))
         if isinstance(n, ast.Subscript) and ast.unparse(n.value) == '_OPERATOR_VALS' and ast.unparse(n.slice) == 'message':
             fallthrough = True
